@@ -35,6 +35,7 @@ def run(ck, ctx):
                      "max(time, x)+c, tick/update advance on every path, and no code replaces a node clock or its owner wholesale "
                      "(shared with C08 R08.1): a node whose clock falls behind a value it holds stamps its next accepted write below that "
                      "value - it serves the new value while every peer keeps the old one")
+    ck.rule("R06.10", DELTA_TEXT)
     for cfg in ctx.configs:
         prog = ctx.prog(cfg)
         ck.configs.append(cfg)
@@ -48,6 +49,7 @@ def run(ck, ctx):
         _r065(ck, prog, cfg)
         r066(ck, prog, cfg, "R06.6")
         _r067(ck, prog, cfg)
+        r0610(ck, prog, cfg, "R06.10")
 
 
 def _r061(ck, prog, cfg):
@@ -498,3 +500,36 @@ def _r067(ck, prog, cfg):
         skips = [callee(tt).rsplit("::", 1)[-1] for bb, tt in ar.calls() if is_callee(tt, r"Iterator>::(filter|take|skip|step_by|take_while|skip_while|filter_map)\b")]
         ck.check(not skips, "R06.7", "apply_remote_deltas:all-deltas" + _tag(cfg), "received deltas are filtered/truncated (%s) before being applied" % skips, ar.where(),
                  detail="every delta of the batch is forwarded")
+
+
+# ------------------------------------------------------------------------------------------------
+DELTA_TEXT = ("a delta is the whole state of its key: every ReplicationDelta a ShardReplicaState emits for a local update carries (a clone of) "
+              "the very ReplicatedValue it stores in replicated_keys - not a projection of it (only the touched hash fields, only the live "
+              "ones): the receiving side, compaction's keep-one-delta-per-key fold and the type-mismatch branch of merge all take a delta "
+              "for the full value, so a partial one loses the untouched part on some replicas only")
+SRS = "replication::state::shard_state::ShardReplicaState"
+
+
+def r0610(ck, prog, cfg, rid):
+    n = 0
+    for f in prog.lib_fns():
+        if f.impl_self != SRS or "test" in f.id:
+            continue
+        news = [(b, t) for b, t in f.calls() if is_callee(t, r"ReplicationDelta::new$") and len(t["args"]) >= 2]
+        stores = [(b, t) for b, t in f.calls() if is_callee(t, r"HashMap::<std::string::String, replication::state::replicated_value::ReplicatedValue.*>::insert$")
+                  and len(t["args"]) >= 3]
+        if not news or not stores:
+            continue
+
+        def root(o):
+            s_ = src_of_operand(f, o, through_calls=TRANSPARENT + (r"Clone>::clone$",))
+            return ((s_.local, tuple(s_.fields)) if s_.kind in ("path", "call", "agg", "multi") and s_.local is not None else None), s_
+        stored = {root(t["args"][2])[0] for _, t in stores} - {None}
+        for k, (b, t) in enumerate(news):
+            n += 1
+            r_, s_ = root(t["args"][1])
+            ck.check(r_ is not None and r_ in stored, rid, "%s:delta-value#%d%s" % (f.short, k, _tag(cfg)),
+                     "the delta emitted by ShardReplicaState::%s carries %s, which is not (a clone of) the value it stores in replicated_keys (%s): "
+                     "peers, recovery and compaction treat every delta as the key's full state" % (f.short, s_.path(), sorted(map(str, stored))),
+                     f.where(t["ln"]), detail="delta value = clone of the stored value")
+    ck.floor(rid + _tag(cfg), n, 4)
